@@ -707,7 +707,17 @@ def rule_quality_table(ctx):
     ctx.floor("R5", "get_quality_score implementations", n, 3)
 
 
+def rule_shared(ctx):
+    """the distance function accepts nothing the exact-string index key separates (C12.R11 whole-list comparison); request / response
+    observations are looked up in their own collections (C13.R2)"""
+    from ..engine import report as R
+    from . import C12, C13
+    C12.rule_R11(R.Retag(ctx, "C12."))
+    C13.rule_R2(R.Retag(ctx, "C13."))
+
+
 def run(ctx):
+    rule_shared(ctx)
     rule_quality_table(ctx)
     rule_R1_R2(ctx)
     rule_R3(ctx)
